@@ -7,6 +7,7 @@ import (
 	"strings"
 
 	"github.com/ipld/go-ipld-prime/datamodel"
+	"github.com/ipld/go-ipld-prime/node/basicnode"
 	"github.com/ucan-wg/go-ucan/pkg/args"
 	"github.com/ucan-wg/go-ucan/pkg/meta"
 	"github.com/ucan-wg/go-ucan/pkg/policy/literal"
@@ -110,6 +111,25 @@ func literalCheck(idx int) (out string) {
 	if err == nil {
 		e, _ := n.LookupByString("k")
 		chk("literal.Any(map…)", e, nil)
+	}
+	// a rejected value must not have been stored on the way (a later use of the same Args / Meta would carry it)
+	for _, nv := range []datamodel.Node{basicnode.NewInt(1 << 53), basicnode.NewInt(-(1 << 53))} {
+		ar := args.New()
+		_ = ar.Add("first", int64(1))
+		if err := ar.Add("k", nv); err != nil {
+			if _, gerr := ar.GetNode("k"); gerr == nil {
+				problems = append(problems, "args.Add returned an error for an out-of-range node but kept it")
+			}
+			n := 0
+			for range ar.Iter() {
+				n++
+			}
+			if n != 1 {
+				problems = append(problems, "args.Add returned an error but changed the arguments")
+			}
+		} else {
+			problems = append(problems, "args.Add accepted an out-of-range node")
+		}
 	}
 	a := args.New()
 	if err := a.Add("k", c.v); err == nil {
